@@ -15,7 +15,9 @@ EXPLANATION = (
     "capture-labelled move is drawn from a destination set intersected with the opponent's occupancy and every "
     "quiet-labelled move from one intersected with the empty squares (pawn pushes: the squares in front); (PROMO) "
     "each of the four promotion kinds is generated exactly once per promoting move; (PROMORANK) the source set of every "
-    "pawn move is split by the pre-promotion-rank mask, promotion labels on it and plain labels off it. Not decided: "
+    "pawn move is split by the pre-promotion-rank mask, promotion labels on it and plain labels off it; (ATTACKERS) the "
+    "attacker set used by every legality probe intersects each kind's attack pattern from the probed square with the "
+    "opponent's pieces of that kind, for all of pawn, knight, bishop/queen, rook/queen and king. Not decided: "
     "completeness/exactness of pin and check-mask algebra, pawn pushes, slider rays (set equality over all positions)."
 )
 
@@ -30,6 +32,82 @@ def run(fx, rep, tier):
     rule_flags(fx, rep)
     rule_check(fx, rep)
     rule_label(fx, rep)
+    rule_attackers(fx, rep)
+
+
+# ---- C01-ATTACKERS -----------------------------------------------------------------------
+
+
+def accessor_kinds(fx, name):
+    """PieceKind constants mentioned in the cone of a Board accessor (its own definition of which pieces it returns)"""
+    b = fx.body(name)
+    if b is None or "chess::board::Board::" not in norm(b.name):
+        return None
+    kinds = set()
+    for nm in fx.cone([b.name]):
+        for bb, j, st in fx.bodies[nm].stmts():
+            rv = st.get("rv")
+            if rv and rv["k"] == "agg" and rv.get("agg") == "adt" and norm(rv["adt"]).endswith("PieceKind"):
+                kinds.add(rv["variant"])
+    return kinds
+
+
+def rule_attackers(fx, rep):
+    """The attacker set every legality probe relies on is the union, over all piece kinds, of (that kind's attack
+    pattern from the probed square) & (the opponent's pieces of that kind)."""
+    ga = fx.one("attackers::generate_attackers_of")
+    need = {"pawn_attacks": {"Pawn"}, "knight_attacks": {"Knight"}, "bishop_attacks": {"Bishop", "Queen"}, "rook_attacks": {"Rook", "Queen"}, "king_attacks": {"King"}}
+    got = {k: set() for k in need}
+    bad_args = []
+    bodies = [ga] + [fx.body(callee_name(t)) for bb, t in ga.calls() if callee_name(t) and fx.body(callee_name(t)) is not None and
+                     norm(fx.body(callee_name(t)).name).startswith("chess::movegen::attackers::")]
+    pairs = 0
+    for b in bodies:
+        for bb, t in b.calls():
+            cn = norm(callee_name(t) or "")
+            if not cn.endswith("BitAnd>::bitand"):
+                continue
+            ops = [b.expr(a, expand_named=True, at=bb) for a in t["args"]]
+            for i in (0, 1):
+                tab = deep_strip(ops[i])
+                if not (isinstance(tab, tuple) and tab and tab[0] == "call" and isinstance(tab[1], str) and tab[1].split("::")[-1] in need and "movegen::tables::" in tab[1]):
+                    continue
+                tname = tab[1].split("::")[-1]
+                other = ops[1 - i]
+                for c in [x for x in walk(other) if isinstance(x, tuple) and x and x[0] == "call" and isinstance(x[1], str)]:
+                    ks = accessor_kinds(fx, c[1])
+                    if not ks:
+                        continue
+                    pairs += 1
+                    got[tname] |= ks
+                    if b is ga:
+                        # pattern taken from the probed square; pieces of the opponent of the probed player
+                        sq_ok = deep_strip(tab[2][0])[:2] == ("arg", 3)
+                        pl = deep_strip(c[2][1]) if len(c[2]) > 1 else None
+                        them_ok = isinstance(pl, tuple) and pl[0] == "call" and pl[1].endswith("Player::other") and deep_strip(pl[2][0])[:2] == ("arg", 2)
+                        pawn_ok = tname != "pawn_attacks" or deep_strip(tab[2][1])[:2] == ("arg", 2)
+                        if not (sq_ok and them_ok and pawn_ok):
+                            bad_args.append((tname, show(tab)[:80], show(c)[:80]))
+    ok = True
+    if pairs == 0:
+        rep.notes.append("C01-ATTACKERS: generate_attackers_of is not a union of (pattern table & piece set) terms in a recognisable form; clause not decided")
+        rep.rule("C01-ATTACKERS", 0, 0, True, "attacker set not in recognisable form: not decided")
+        return
+    for tname, kinds in need.items():
+        good = kinds <= got[tname]
+        rep.obligation(good)
+        rep.sample({"rule": "C01-ATTACKERS", "pattern": tname, "intersected_with_kinds": sorted(got[tname])})
+        if not good:
+            ok = False
+            rep.violation("C01-ATTACKERS", f"C01-ATTACKERS/{tname}", f"generate_attackers_of does not intersect `{tname}` with the opponent's {sorted(kinds - got[tname])}: attacks by that piece kind are invisible to every legality probe (king moves, castling path, en passant, check detection)",
+                          {"fn": ga.name, "file": ga.file, "line": ga.line})
+    good = not bad_args
+    rep.obligation(good)
+    if not good:
+        ok = False
+        rep.violation("C01-ATTACKERS", "C01-ATTACKERS/args", f"attack patterns are not taken from the probed square against the probed player's opponent: {bad_args[:3]}", {"fn": ga.name, "file": ga.file, "line": ga.line})
+    # every probe of the generator goes through this function (or Board::king_in_check, which calls it)
+    rep.rule("C01-ATTACKERS", len(need) + 1, 6, ok, "attacker set = union over all piece kinds of pattern & opponent's pieces")
 
 
 # ---- shared: probes ------------------------------------------------------------------------
@@ -877,6 +955,12 @@ def enum_name_of(e):
 GEN = "src/chess/movegen/gen.rs"
 MV = "src/chess/moves.rs"
 MUTANTS = [
+    {"name": "enemy king no longer counted as an attacker (seed C01-2)", "expect": "C01-ATTACKERS/king_attacks",
+     "edits": [("src/chess/movegen/attackers.rs", "    attackers |= tables::king_attacks(square) & board.king(them);\n\n    attackers\n}\n\npub fn all_attackers_of", "    attackers\n}\n\npub fn all_attackers_of")]},
+    {"name": "diagonal attackers exclude queens", "expect": "C01-ATTACKERS/bishop_attacks",
+     "edits": [("src/chess/movegen/attackers.rs", "    attackers |= tables::bishop_attacks(square, all_pieces) & board.diagonal_sliders(them);", "    attackers |= tables::bishop_attacks(square, all_pieces) & board.bishops(them);")]},
+    {"name": "pawn attack pattern of the wrong colour", "expect": "C01-ATTACKERS/args",
+     "edits": [("src/chess/movegen/attackers.rs", "    attackers |= tables::pawn_attacks(square, player) & board.pawns(them);", "    attackers |= tables::pawn_attacks(square, them) & board.pawns(them);")]},
     {"name": "en-passant probe without the capturing pawn on the target (original defect)", "expect": "C01-EP",
      "edits": [(GEN, "                    board_without_en_passant_participants.set_at(\n                        en_passant_target,\n                        Piece::new(game.player, PieceKind::Pawn),\n                    );\n", "                    let _ = (Piece::new(game.player, PieceKind::Pawn), PieceKind::Pawn);\n")]},
     {"name": "en-passant probe forgets to remove the victim", "expect": "C01-EP",
